@@ -225,6 +225,9 @@ pub fn run_variants<K: KeyT, V: ValT>(prop: Prop, spec: &RunSpec, thorough: bool
     let hmode = spec.cfg.map_hashers.first().or(spec.cfg.set_hashers.first()).map_or(0, |h| h.mode as u8);
     let leak_check = true;
     for (ci, cont) in conts.iter().enumerate() {
+        if crate::past_deadline() {
+            break;
+        }
         if let Some(o) = only {
             if o != ci {
                 continue;
